@@ -4,6 +4,7 @@
   theorems are about (`GriddleModel.Map` and below).
 -/
 import GriddleModel.Protocol
+import GriddleModel.Panic
 open Griddle
 
 structure DState where
@@ -111,6 +112,31 @@ def resolveBoth (run : Nat → Nat → Except Fault (Map × Out)) (glObs : Optio
         | .error _ => go rest
     go cands
 
+/-- the same two resolutions for fused calls -/
+def resolveHitsF (run : Nat → Except Fault (Map × Out × Bool)) (glObs : Option Nat) (maxH : Nat) :
+    Except Fault (Map × Out × Bool) :=
+  match glObs with
+  | none => run 0
+  | some g =>
+    let first := run 0
+    let rec go : List Nat → Except Fault (Map × Out × Bool)
+      | [] => first
+      | h :: rest =>
+        match run h with
+        | .ok (m, out, b) => if m.main.gl == g then .ok (m, out, b) else go rest
+        | .error _ => go rest
+    go (List.range (maxH + 1))
+
+def resolveEmptF (run : Nat → Except Fault (Map × Out × Bool)) (glObs : Option Nat) :
+    Except Fault (Map × Out × Bool) :=
+  match glObs with
+  | none => run 0
+  | some g =>
+    match run 0 with
+    | .ok (m, out, b) =>
+      if m.main.gl == g then .ok (m, out, b) else run (g - m.main.gl)
+    | .error f => .error f
+
 def sortEnts (es : List Entry) : List Entry := (es.toArray.qsort (fun a b => a.k < b.k)).toList
 
 def replayLine (s : DState) (op : String) (mid : Nat) (args : List String) (orc : List (String × String))
@@ -122,6 +148,13 @@ def replayLine (s : DState) (op : String) (mid : Nat) (args : List String) (orc 
   let fin (r : Except Fault (Map × Out)) : Replay :=
     match r with
     | .ok (m, out) => .ok (setMap s mid m) (obsFields m out)
+    | .error f => .fault f
+  -- fused calls: the model says whether the injected panic fires
+  let finF (r : Except Fault (Map × Out × Bool)) : Replay :=
+    match r with
+    | .ok (m, out, fired) =>
+      .ok (setMap s mid m) ((obsFields m out).map (fun (k, v) =>
+        if k == "panic" then (k, if fired then "injected" else "-") else (k, v)))
     | .error f => .fault f
   let needMap (k : Map → Replay) : Replay :=
     match getMap s mid with
@@ -188,6 +221,15 @@ def replayLine (s : DState) (op : String) (mid : Nat) (args : List String) (orc 
       | some st =>
         fin (resolveBoth (fun e h => Map.entryChain c (raw == "1") lh m k kid st { o with empt := e, hits := h })
               glObs (c.R + 2))
+  | "finsert", [k, kid, v, vid, fuse] =>
+    nat k fun k => nat kid fun kid => nat v fun v => nat vid fun vid => nat fuse fun fuse => needMap fun m =>
+      finF (resolveHitsF (fun h => Map.insertFused c m ⟨k, kid, v, vid⟩ fuse { o with hits := h }) glObs (c.R + 2))
+  | "fretain", [p, fuse] => nat fuse fun fuse => needMap fun m =>
+      match parsePred p with
+      | none => .bad "pred"
+      | some p => finF (resolveEmptF (fun e => Map.retainFusedOut m p fuse { o with empt := e }) glObs)
+  | "freplace", [k, kid] => nat k fun k => nat kid fun kid => needMap fun m =>
+      finF (resolveEmptF (fun e => Map.replaceFusedOut m k kid { o with empt := e }) glObs)
   | "drop", [] => needMap fun m =>
       .ok (delMap s mid) [("drop", fmtIds (Map.dropAll m).dropped), ("df", toString (Map.dropAll m).frees)]
   | "forget", [] => .ok (delMap s mid) []
@@ -257,7 +299,7 @@ def processLine (s : DState) (line : String) : DState × List String :=
               match field? obs k with
               | some iv => if iv == v then none else some (k, v, iv)
               | none => none)
-            let diffs := if implPanic != "-" && !(diffs.any (·.1 == "panic")) then
+            let diffs := if implPanic != "-" && !(diffs.any (·.1 == "panic")) && !(fields.any (· == ("panic", implPanic))) then
                 diffs ++ [("panic", "-", implPanic)] else diffs
             let hard := diffs.filter (fun d => s.mask.isEmpty || s.mask.contains d.1)
             let msgs := diffs.map (fun (k, v, iv) =>
